@@ -31,6 +31,38 @@ open Scrapli Scrapli.Chan
 inductive Kind | eof | err
   deriving DecidableEq, Repr
 
+/-- what the read loop can ask about a transport read error VALUE. The loop's classification is
+    two-way: `errors.Is(err, io.EOF)` → return; anything else → hand over through `Errs`. The other
+    fields are facts about the value the loop must NOT let influence it (a `net.Error` whose
+    `Timeout()` is true such as ETIMEDOUT / EAGAIN / deadline exceeded; a message that merely
+    contains "EOF"). -/
+structure EVal where
+  isEOF : Bool
+  netTimeout : Bool
+  eofText : Bool
+  deriving DecidableEq, Repr
+
+/-- the loss kind an error value is -/
+def kindOf (v : EVal) : Kind := if v.isEOF then .eof else .err
+
+/-- does a branch condition of the read loop's error block (source text, extracted by the
+    translator) fire on `v` during a loss (the channel is not being closed, so `done` is silent)?
+    A condition the model does not know is assumed able to fire. -/
+def condFires (c : String) (v : EVal) : Bool :=
+  if c == "<-c.done" then false
+  else if c == "errors.Is(err, io.EOF)" then v.isEOF
+  else true
+
+/-- the error reaches `c.Errs <- err` -/
+def handedOver (exc : List (String × String)) (sendPresent : Bool) (v : EVal) : Bool :=
+  sendPresent && exc.all fun (c, _) => !condFires c v
+
+/-- the loop returns (sets `readLoopExited`) on this value -/
+def exitsOn (exc : List (String × String)) (v : EVal) : Bool :=
+  match exc.find? fun (c, _) => condFires c v with
+  | some (_, a) => a == "exit"
+  | none => false
+
 /-- state of the read goroutine `Channel.read` -/
 inductive Rd
   | running   -- in the loop (reading the transport / sleeping)
